@@ -3,6 +3,8 @@
 import z3
 from . import core
 from .core import SInt, SBool, SBytes, SFix, Opaque, HarnessError, PathAbort
+from . import elastic          # registers the elastic-buffer classes with the shims in core
+from .elastic import EView, EBlob
 
 
 def sym():
@@ -80,6 +82,8 @@ def blist(x):
         return None
     if isinstance(x, list):
         return x
+    if x.__class__ is EView or x.__class__ is EBlob:
+        raise HarnessError('elastic: element list of a window that contains the opaque region')
     return list(bytes(x))
 
 
